@@ -21,7 +21,7 @@ RULE = ('programs of 1-3 nodes; every node carries a combination of option lists
         'value touches or misses (i.e. every generated program except bare declarations); distinct by rendered text')
 SHARDS = {'quick': 16, 'thorough': 16}
 MIN_NONTRIVIAL = {'quick': 2000, 'thorough': 50000}
-REQUIRED_CLASSES = ['expected-accept', 'expected-reject', 'option-per-line', 'option-list-form', 'option-in-other-unit',
+REQUIRED_CLASSES = ['edge:sliced-injection-into-bounded-array', 'edge:slice-within-bounds', 'edge:slice-outside-bounds', 'expected-accept', 'expected-reject', 'option-per-line', 'option-list-form', 'option-in-other-unit',
                     'option-on', 'option-near', 'option-all-off', 'str-option-member', 'str-option-not-member',
                     'cond-le-on', 'cond-le-near', 'cond-lt-on', 'cond-ge-above', 'cond-eq-near', 'cond-ne-on',
                     'condition-compound', 'condition-constant-in-other-unit', 'bool-condition-satisfied',
@@ -57,8 +57,11 @@ def setup():
 def cases(rng, tier, shard, nshards, ctx):
     if tier == 'thorough' and shard == nshards - 1:
         yield dict(t='repotests')
-    for _ in range(NPROG[tier] // nshards):
+    from vt.props import dip_edge
+    for i in range(NPROG[tier] // nshards):
         yield R.gen_program(rng)
+        if i % 8 == 0:
+            yield dip_edge.gen_c16(rng)
 
 
 def run_real(text, ctx):
@@ -209,6 +212,13 @@ def run_repo_tests(case, ctx):
 def run_case(case, ctx):
     if case.get('t') == 'repotests':
         return run_repo_tests(case, ctx)
+    if case.get('edge'):
+        from vt.props import dip_edge
+        out = dip_edge.run_c16(case, ctx)
+        R.drain_parse_deviations()
+        if ctx.get('hyg') is not None and ctx['hyg'].check_restore():
+            out['monitors']['table_leaks_restored'] = 1
+        return out
     text = R.render(case)
     exp, bad, allc = R.verdict(case)
     if exp == 'undecided':
